@@ -215,7 +215,65 @@ func randD(r *Rng, depth int, o genOpts) *D {
 
 func randMap(r *Rng, depth int, o genOpts) *D {
 	n := r.Intn(4)
-	switch r.Intn(3) {
+	switch r.Intn(5) {
+	case 3:
+		// keys of mixed kinds
+		d := &D{K: "kmap"}
+		used := map[string]bool{}
+		for i, m := 0, r.Intn(6); i < m; i++ {
+			var k *D
+			switch r.Intn(9) {
+			case 0:
+				k = &D{K: "nil"}
+			case 1:
+				k = dN("bool", int64(r.Intn(2)))
+			case 2:
+				k = dN("int", int64(r.Intn(5)-2))
+			case 3:
+				k = dN("uint8", int64(r.Intn(4)))
+			case 4:
+				k = &D{K: "float64", F: []float64{-1.5, 0, 2.25, 1e100}[r.Intn(4)]}
+			case 5:
+				k = dS("string", []string{"a", "b", "", "k" + startM}[r.Intn(4)])
+			case 6:
+				k = &D{K: "kstruct", N: int64(r.Intn(3)), S: QS([]string{"x", "y"}[r.Intn(2)])}
+			case 7:
+				k = dN("karr", int64(r.Intn(40)))
+			default:
+				k = &D{K: "kcomplex", F: float64(r.Intn(3)), N: int64(r.Intn(3))}
+			}
+			if used[k.String()] {
+				continue
+			}
+			used[k.String()] = true
+			d.Sub = append(d.Sub, k, randD(r, depth-1, o))
+		}
+		return d
+	case 4:
+		if r.Bool() {
+			d := &D{K: "fmap"}
+			used := map[float64]bool{}
+			for i := 0; i < n; i++ {
+				f := []float64{-2.5, -0.0, 0, 1, 3.75, 1e100}[r.Intn(6)]
+				if used[f] {
+					continue
+				}
+				used[f] = true
+				d.Sub = append(d.Sub, &D{K: "float64", F: f}, dS("string", randPayload(r, o)))
+			}
+			return d
+		}
+		d := &D{K: "amap"}
+		used := map[int64]bool{}
+		for i := 0; i < n; i++ {
+			k := int64(r.Intn(1000))
+			if used[k] {
+				continue
+			}
+			used[k] = true
+			d.Sub = append(d.Sub, dN("int", k), dN("bool", int64(r.Intn(2))))
+		}
+		return d
 	case 0:
 		d := &D{K: "map"}
 		used := map[string]bool{}
